@@ -340,9 +340,15 @@ func parenthesize(f *ast.File) {
 			n.X = operand(n.X)
 		case *ast.CallExpr:
 			n.Fun = operand(n.Fun)
-			// A conversion to a function type: "(func())(x)".
-			if ft, ok := n.Fun.(*ast.FuncType); ok {
-				n.Fun = paren(ft)
+			// A conversion to a function type, "(func())(x)", or to a
+			// receive-only channel type, "(<-chan int)(x)".
+			switch t := n.Fun.(type) {
+			case *ast.FuncType:
+				n.Fun = paren(t)
+			case *ast.ChanType:
+				if t.Dir == ast.RECV {
+					n.Fun = paren(t)
+				}
 			}
 		}
 		return true
